@@ -284,11 +284,18 @@ class Context(object):
             except KeyError: return
             wou = self.warnOnUnrecognized
             self.warnOnUnrecognized = False
-            for key, value in list(data.items()):
-                n = self[value.get('macroName', 'Macro')]()
-                n.restore(value)
-                self.labels[key] = n
-            self.warnOnUnrecognized = wou
+            try:
+                for key, value in list(data.items()):
+                    # A damaged entry must not take the entries after it along
+                    try:
+                        n = self[value.get('macroName', 'Macro')]()
+                        n.restore(value)
+                    except Exception as msg:
+                        log.warning('Could not load auxiliary information for %s. (%s)' % (key, msg))
+                        continue
+                    self.labels[key] = n
+            finally:
+                self.warnOnUnrecognized = wou
         except Exception as msg:
             log.warning('Could not load auxiliary information. (%s)' % msg)
 
